@@ -4,6 +4,7 @@
 package db19
 
 import (
+	"slices"
 	"fmt"
 	"math/rand/v2"
 	"os"
@@ -1023,10 +1024,19 @@ func (s *vfSim) adminActor(r *rand.Rand, stop chan struct{}) {
 					have[table] = false
 					s.rep.Count("admin.index_dropped", 1)
 				}
-			} else {
+			} else if r.IntN(2) == 0 {
 				s.db.AlterCreate(sch)
 				have[table] = true
 				s.rep.Count("admin.index_built", 1)
+			} else {
+				// the same through ensure, which also names the (existing) columns, in another order than they are stored:
+				// the positions of the fields in the stored rows must come from the table, not from the request
+				cols := slices.Clone(s.sc.defs[table].cols)
+				slices.Reverse(cols)
+				s.db.Ensure(&schema.Schema{Table: table, Columns: cols, Indexes: sch.Indexes})
+				have[table] = true
+				s.rep.Count("admin.index_built", 1)
+				s.rep.Count("admin.index_built_by_ensure", 1)
 			}
 		})
 		if p != nil {
